@@ -59,6 +59,12 @@ impl CQueueLLAllocatorInner {
             Layout::from_size_align(self.page_size, self.page_size).expect("page layout invalid"),
         );
         self.pages.push(block);
+        #[cfg(petrichorit_des_verif)]
+        super::verif::alloc_event(super::verif::AllocEvent::Page {
+            alloc: ptr::from_ref(self) as usize,
+            addr: block as usize,
+            len: self.page_size,
+        });
         self.add_free_region(block as usize, self.page_size);
     }
 
@@ -164,6 +170,12 @@ impl Drop for CQueueLLAllocatorInner {
         let layout = Layout::from_size_align(self.page_size, self.page_size)
             .expect("failed to generate page layout");
         for page in &self.pages {
+            #[cfg(petrichorit_des_verif)]
+            super::verif::alloc_event(super::verif::AllocEvent::ReleasePage {
+                alloc: ptr::from_ref(self) as usize,
+                addr: *page as usize,
+                len: self.page_size,
+            });
             unsafe { alloc::dealloc(*page, layout) }
         }
     }
@@ -201,6 +213,15 @@ impl CQueueLLAllocator {
                     }
                 }
                 allocator.allocated_mem += size;
+                #[cfg(petrichorit_des_verif)]
+                super::verif::alloc_event(super::verif::AllocEvent::Alloc {
+                    alloc: self.inner as usize,
+                    addr: alloc_start,
+                    size,
+                    align,
+                    req_size: layout.size(),
+                    req_align: layout.align(),
+                });
                 Ok(alloc_start as *mut u8)
             }
         } else {
@@ -212,6 +233,12 @@ impl CQueueLLAllocator {
         let (size, _) = CQueueLLAllocatorInner::size_align(layout);
         let allocator = unsafe { &mut *self.inner };
         allocator.allocated_mem -= size;
+        #[cfg(petrichorit_des_verif)]
+        super::verif::alloc_event(super::verif::AllocEvent::Free {
+            alloc: self.inner as usize,
+            addr: ptr.as_ptr() as usize,
+            size,
+        });
         allocator.add_free_region(ptr.as_ptr() as usize, size);
     }
 }
